@@ -156,6 +156,7 @@ def hist_to_script(hist, nrep, klass):
             connected = True
             st.append({"k": "sync"})
             st.append({"k": "connect", "r": h["r"], "s": h["s"]})
+            st.append({"k": "sync"})
     st.append({"k": "sync"})
     st = [x for i, x in enumerate(st) if not (x["k"] == "sync" and i > 0 and st[i - 1]["k"] == "sync")]
     return {"nrep": nrep, "class": klass, "steps": st}
